@@ -490,17 +490,29 @@ func c19Real(c *core.Case, o *core.Outcome) {
 		if r.IntN(6) == 0 {
 			n = 0
 		}
+		// measured durations of 0 ns (coarse clock) are as good as any: the counts are what the output states
+		zeroDur := r.IntN(4) == 0
+		dur := func() int64 {
+			if zeroDur {
+				return 0
+			}
+			return int64(1 + r.IntN(1e9))
+		}
 		for k := 0; k < n; k++ {
 			switch r.IntN(4) {
 			case 0:
-				stats.Record(metrics.FailedResult, int64(1+r.IntN(1e9)))
+				stats.Record(metrics.FailedResult, dur())
 				f++
 			case 1:
 				stats.Record(metrics.DroppedResult, 0)
 				d++
 			default:
-				stats.Record(metrics.SuccessResult, int64(1+r.IntN(1e9)))
+				stats.Record(metrics.SuccessResult, dur())
 				s++
+			}
+			if zeroDur && k%5 == 4 {
+				// a progress collection in between, as the periodic runner would do
+				stats.Snapshot(time.Second)
 			}
 		}
 		if r.IntN(5) == 0 {
